@@ -419,6 +419,42 @@ fn body_decls(out: &mut Vec<Decl>) {
         let s = format!("#[darling(attributes(a), {o})] struct S {{ a: u8 }}");
         push(&s, vec![find(&s, o, 0)], &[1]);
     }
+    // path-valued options accept the documented quoted spelling as well as the bare one
+    for o in ["map = \"f\"", "and_then = \"a::f\"", "default = \"f\"", "map = f", "and_then = a::f", "default = f", "with = f", "with = |m| f(m)", "default = \"a::b::<u8>\""] {
+        let s = format!("struct S {{ #[darling({o})] a: u8, b: u8 }}");
+        push(&s, vec![], &[0]);
+        let s = format!("{a}struct S {{ #[darling({o})] a: u8, b: u8 }}");
+        push(&s, vec![], &elem);
+    }
+    for o in ["map = \"f\"", "and_then = \"a::f\"", "default = \"f\"", "from_word = f", "from_none = || None"] {
+        let s = format!("#[darling({o})] struct S {{ a: u8 }}");
+        push(&s, vec![], &[0]);
+    }
+    // shape words: FromVariant takes the un-prefixed words only, FromDeriveInput the prefixed
+    // ones (and `any`) only
+    for (words, bad) in [
+        ("unit, newtype", vec![]),
+        ("any", vec![]),
+        ("named, tuple, newtype, unit", vec![]),
+        ("enum_unit", vec!["enum_unit"]),
+        ("struct_named", vec!["struct_named"]),
+        ("unit, enum_newtype", vec!["enum_newtype"]),
+        ("enum_any, named", vec!["enum_any"]),
+        ("struct_any", vec!["struct_any"]),
+    ] {
+        let s = format!("#[darling(attributes(a), supports({words}))] struct S {{ a: u8 }}");
+        // (the variant-level parser reports a bad word at the whole `supports(..)` option)
+        let opt = format!("supports({words})");
+        push(&s, if bad.is_empty() { vec![] } else { vec![find(&s, &opt, 0)] }, &[3]);
+    }
+    for (words, bad) in [("struct_named, enum_unit", vec![]), ("unit", vec!["unit"]), ("named", vec!["named"]), ("struct_named, newtype", vec!["newtype"]), ("tuple, enum_any", vec!["tuple"])] {
+        let s = format!("#[darling(attributes(a), supports({words}))] struct S {{ a: u8 }}");
+        push(&s, bad.iter().map(|w| find(&s, w, 0)).collect(), &[1]);
+    }
+    // from_none conflicts with nothing: unit, newtype, empty and named structs and enums keep it
+    for body in ["struct S;", "struct S(u8);", "struct S {}", "struct S { a: u8 }", "enum E { A, B(u8) }", "enum E {}"] {
+        push(&format!("#[darling(from_none = f)] {body}"), vec![], &[0]);
+    }
     // attrs field needs forward_attrs
     let at1 = format!("{a}struct S {{ attrs: Vec<syn::Attribute>, b: u8 }}");
     push(&at1, vec![find(&at1, "attrs", 0)], &elem);
